@@ -292,6 +292,24 @@ pub fn c05_cases(rng: &mut Rng, tier: &str, out: &mut Out) {
                                                t.status, t.unfinished.len(), t.files.iter().map(|f| f.1.len()).sum::<usize>(), built.contents.iter().map(|c| c.len()).sum::<usize>()));
                         }
                     }
+                    // with the encryption layer every read of the source goes through read_exact / read_to_end / io::copy,
+                    // which repeat an interrupted read: a source that reports ONE interruption loses nothing
+                    if plan.layers & L_ENC != 0 {
+                        for trial in 0..6usize {
+                            if msg.is_some() {
+                                break;
+                            }
+                            let q = [1usize, 7, 16, 80, 100_000, 33][trial];
+                            let at = rng.below((built.bytes.len() / q.min(80)) as u64 + 3) as usize;
+                            let src = FlakyReader { data: &built.bytes, pos: 0, sched: vec![q], calls: 0, intr: vec![at] };
+                            let t = repair_with(src, &built.privs, unauth);
+                            evals += 1;
+                            if t.crashed.is_some() || t.status != Some(12) || !t.unfinished.is_empty() || t.files != r.files {
+                                msg = Some(format!("undamaged encrypted archive from a source (reads of {q} bytes) reporting ONE interruption at read {at}: status {:?}, {} unfinished, {} of {} bytes recovered",
+                                                   t.status, t.unfinished.len(), t.files.iter().map(|f| f.1.len()).sum::<usize>(), built.contents.iter().map(|c| c.len()).sum::<usize>()));
+                            }
+                        }
+                    }
                 }
             }
             out.case(&Case {
@@ -738,5 +756,102 @@ pub fn c02_src_cases(rng: &mut Rng, tier: &str, out: &mut Out) {
             });
         }
         done += 1;
+    }
+}
+
+
+// ------------------------------------------------------------------ archives no writer of this library produces
+
+/// Layer-less archives written by the INDEPENDENT encoder of format.rs (FORMAT.md only): file ids that do
+/// not start at 0, empty FileContent blocks (also as the very first content block), a file named "" among
+/// the names, interleaved pieces. Valid per the format description; the library's own writer never emits them.
+pub fn exotic_archives(rng: &mut Rng, n: usize) -> Vec<(Plan, Built)> {
+    use crate::format::indep;
+    let mut v = Vec::new();
+    for k in 0..n {
+        let nfiles = 2 + k % 3;
+        let mut names: Vec<Vec<u8>> = (0..nfiles).map(|i| format!("e{k}/{i}").into_bytes()).collect();
+        if k % 2 == 0 {
+            names[nfiles - 1] = Vec::new(); // the empty name
+        }
+        let mut pieces: Vec<(usize, Vec<u8>)> = Vec::new();
+        if k % 3 != 2 {
+            pieces.push((0, Vec::new())); // an empty block before any non-empty one
+        }
+        for _ in 0..rng.range(3, 7) {
+            let f = rng.below(nfiles as u64) as usize;
+            let len = *rng.pick(&[0usize, 0, 1, 7, 40, 63, 64, 65, 130]);
+            pieces.push((f, rng.bytes(len)));
+        }
+        let p = indep::EncParams { layers: 0, recipients: vec![], ephemeral: [0; 32], key: [0; 32], nonce: [0; 8], quality: 0, keep_empty_pieces: true, footer_rot: k };
+        let bytes = indep::encode(&names, &pieces, &p);
+        let mut contents: Vec<Vec<u8>> = vec![Vec::new(); nfiles];
+        for (f, d) in &pieces {
+            contents[*f].extend_from_slice(d);
+        }
+        let plan = Plan { names, pieces, layers: 0, level: 0, recipients: 1, reader_key: 0 };
+        v.push((plan, Built { bytes, header_len: 9, key: [0; 32], nonce: [0; 8], privs: vec![], contents }));
+    }
+    v
+}
+
+/// `repair_bytes` under a watchdog: None when the repair has not returned after `secs` seconds (the thread is
+/// left behind; the caller stops the family).
+pub fn repair_bytes_watchdog(input: &[u8], secs: u64) -> Option<Repaired> {
+    let (tx, rx) = std::sync::mpsc::channel();
+    let data = input.to_vec();
+    std::thread::spawn(move || {
+        let r = repair_bytes(&data, &[], false);
+        let _ = tx.send(r);
+    });
+    rx.recv_timeout(std::time::Duration::from_secs(secs)).ok()
+}
+
+/// C02 / C05 on exotic archives: every cut (C02 clauses, model-compared), the intact archive complete,
+/// no file shrinking from one cut to the next; a repair that does not return within 10 s is a failure.
+pub fn c02_exotic_cases(rng: &mut Rng, tier: &str, out: &mut Out) {
+    let n = if tier == "thorough" { 18 } else { 4 };
+    'arch: for (ai, (plan, built)) in exotic_archives(rng, n).iter().enumerate() {
+        // the normal reader reads them (they are valid)
+        let ops = full_read_ops(rng, plan.names.len());
+        let rows = run_history(&built.bytes, &[], &plan.names, &ops, true);
+        if let Err(e) = oracle_read(plan, built, &ops, &rows) {
+            out.case(&Case { id: format!("c02-exotic-{ai}-read"), model_fn: "", args: vec![], imp: json!([]), oracle_ok: false,
+                             oracle_msg: format!("an archive written by the independent encoder (ids from 10, empty blocks, empty name) is not read back: {e}"),
+                             class: "exotic read".into(), nontrivial: true, meta: json!({"archive": ai}) });
+        }
+        let mut prev: Vec<(Vec<u8>, Vec<u8>)> = Vec::new();
+        for cut in built.header_len..=built.bytes.len() {
+            let Some(r) = repair_bytes_watchdog(&built.bytes[..cut], 10) else {
+                out.case(&Case { id: format!("c02-exotic-{ai}-cut{cut}"), model_fn: "", args: vec![], imp: json!([]), oracle_ok: false,
+                                 oracle_msg: format!("repair of the first {cut} bytes (of {}) of a valid archive holding empty content blocks does not terminate (10 s)", built.bytes.len()),
+                                 class: "exotic hang".into(), nontrivial: true, meta: json!({"archive": ai, "cut": cut, "pieces": plan.pieces.iter().map(|p| (p.0, p.1.len())).collect::<Vec<_>>()}) });
+                break 'arch;
+            };
+            let mut oracle = oracle_c02(plan, built, &r, true);
+            if oracle.is_ok() {
+                for (nm, d) in &prev {
+                    let now = r.files.iter().find(|f| &f.0 == nm).map(|f| f.1.len()).unwrap_or(0);
+                    if now < d.len() {
+                        oracle = Err(format!("file {:?} shrinks from {} to {} bytes when one more byte of the archive is given", String::from_utf8_lossy(nm), d.len(), now));
+                    }
+                }
+            }
+            if oracle.is_ok() && cut == built.bytes.len() && (r.status != Some(12) || !r.unfinished.is_empty() || r.files.len() != plan.names.len()) {
+                oracle = Err(format!("undamaged archive: status {:?}, {} unfinished, {} of {} files", r.status, r.unfinished.len(), r.files.len(), plan.names.len()));
+            }
+            prev = r.files.clone();
+            out.case(&Case {
+                id: format!("c02-exotic-{ai}-cut{cut}"),
+                model_fn: if cfg!(feature = "scaled") { "repair_plain" } else { "" },
+                args: if cfg!(feature = "scaled") { vec![jbytes(&built.bytes[built.header_len..cut])] } else { vec![] },
+                imp: json!(r.rows),
+                oracle_ok: oracle.is_ok(),
+                oracle_msg: oracle.err().map(|e| format!("archive of the independent encoder (ids from 10, empty blocks, empty name), cut {cut}: {e}")).unwrap_or_default(),
+                class: format!("exotic status={:?}", r.status),
+                nontrivial: true,
+                meta: json!({"archive": ai, "cut": cut, "len": built.bytes.len()}),
+            });
+        }
     }
 }
